@@ -22,10 +22,10 @@ theorem held_kont (k : Kont) : held (kont k) = none := by cases k <;> rfl
 
 attribute [local grind] held
 
-theorem step_inv1 {s s' : St} {e : Ev} (hi : Inv1 s) (h : step s e = some s') : Inv1 s' := by
+theorem step_inv1 {fx : Bool} {s s' : St} {e : Ev} (hi : Inv1 s) (h : stepG fx s e = some s') : Inv1 s' := by
   obtain ⟨h1, h2, h3⟩ := hi
   have h0 : ∀ u, u < s.n → u = 0 := by intro u hu; omega
-  cases e <;> simp only [step] at h <;> (repeat' split at h) <;>
+  cases e <;> simp only [stepG] at h <;> (repeat' split at h) <;>
     first
     | (simp at h; done)
     | (simp only [Option.some.injEq] at h; subst h
@@ -33,7 +33,7 @@ theorem step_inv1 {s s' : St} {e : Ev} (hi : Inv1 s) (h : step s e = some s') : 
 
 theorem inv1_init : Inv1 (init 1) := ⟨rfl, Or.inl rfl, rfl⟩
 
-theorem inv1_of_accepted {log : List Ev} {s : St} (h : runLog step (init 1) log = some s) : Inv1 s :=
+theorem inv1_of_accepted {fx : Bool} {log : List Ev} {s : St} (h : runLog (stepG fx) (init 1) log = some s) : Inv1 s :=
   inv_of_runLog Inv1 (fun _ _ _ hi hs => step_inv1 hi hs) inv1_init h
 
 end PikaVerif.Deque
